@@ -223,7 +223,25 @@ fn finding(which: &str) -> Result<String, String> {
 static FOCUS: std::sync::Mutex<Vec<String>> = std::sync::Mutex::new(Vec::new());
 static PAST_INV: std::sync::atomic::AtomicBool = std::sync::atomic::AtomicBool::new(false);
 static HIST: std::sync::Mutex<String> = std::sync::Mutex::new(String::new());
-fn note(h: &str) { if let Ok(mut g) = HIST.lock() { g.clear(); g.push_str(h); } }
+static PROGRESS: std::sync::atomic::AtomicU64 = std::sync::atomic::AtomicU64::new(0);
+fn now_s() -> u64 { std::time::SystemTime::now().duration_since(std::time::UNIX_EPOCH).map(|d| d.as_secs()).unwrap_or(0) }
+fn note(h: &str) { PROGRESS.store(now_s(), std::sync::atomic::Ordering::Relaxed); if let Ok(mut g) = HIST.lock() { g.clear(); g.push_str(h); } }
+// a history step of the real code that does not return (C10: non-terminating loop, e.g. a cyclic arena) is a failing input too:
+// the watchdog reports the history recorded so far and ends the process
+fn watchdog(limit_s: u64) {
+    PROGRESS.store(now_s(), std::sync::atomic::Ordering::Relaxed);
+    std::thread::spawn(move || loop {
+        std::thread::sleep(std::time::Duration::from_millis(500));
+        let last = PROGRESS.load(std::sync::atomic::Ordering::Relaxed);
+        if now_s() > last + limit_s {
+            let h = HIST.lock().map(|g| g.clone()).unwrap_or_default();
+            let msg = format!("[C10] {}-> the real code did not return from this step within {} s (non-terminating loop)", h, limit_s).replace('\n', " ");
+            println!("{{\"ok\": false, \"counterexample\": {:?}}}", msg);
+            use std::io::Write; let _ = std::io::stdout().flush();
+            std::process::exit(1);
+        }
+    });
+}
 
 macro_rules! h { ($hist:expr, $($arg:tt)*) => { { $hist.push_str(&format!($($arg)*)); note(&$hist); } } }
 
@@ -1101,6 +1119,7 @@ fn main() {
         Some("explore") => {
             let seeds: u64 = args[3].parse().unwrap();
             let steps: usize = args[4].parse().unwrap();
+            watchdog(30);
             for a in args.iter().skip(5) {
                 if a == "continue" { PAST_INV.store(true, std::sync::atomic::Ordering::Relaxed); }
                 if let Some(f) = a.strip_prefix("focus=") { if let Ok(mut g) = FOCUS.lock() { *g = f.split(',').map(|x| x.to_string()).collect(); } }
@@ -1125,6 +1144,7 @@ fn main() {
         Some("explore-clear") => {
             let seeds: u64 = args[3].parse().unwrap();
             let steps: usize = args[4].parse().unwrap();
+            watchdog(30);
             std::panic::set_hook(Box::new(|info| {
                 let h = HIST.lock().map(|g| g.clone()).unwrap_or_default();
                 let msg = format!("[C10] {}-> the real code panicked: {}", h, info).replace('\n', " ");
